@@ -176,7 +176,7 @@ def cmd_table():
         col = ' '.join(others) if (cross is not None or len(m.get('checks_quick', {})) > 1) else 'not measured'
         what = (m.get('needs') or m.get('visible_difference') or '').replace('|', '/').replace('\n', ' ')[:160]
         print('| %s | %s | %s | %s | %s |' % (n, m['property'], what,
-              'yes' if own else ('obsolete (harmless since fix D12, see meta.json)' if m.get('obsolete') else ('not claimed (outside the asserted domain, see meta.json)' if m.get('not_claimed') else ('NO' if own is not None else '?'))), col))
+              'yes' if own else ('obsolete (harmless since fix D12, see meta.json)' if m.get('obsolete') else ('not claimed (outside the asserted domain, see meta.json)' if m.get('not_claimed') else ('NO (known miss, see meta.json)' if m.get('missed') else ('NO' if own is not None else '?')))), col))
 
 
 if __name__ == '__main__':
